@@ -11,12 +11,22 @@ def main():
         if not m.exists():
             continue
         x = json.load(open(m))
-        res = x.get("checks_run_quick", "")
-        caught = [r.split(":")[0] for r in re.findall(r"(C\d+:rc=\d)", res) if r.endswith("rc=1")]
-        ran = [r.split(":")[0] for r in re.findall(r"(C\d+:rc=\d)", res)]
         own = x["breaks_property"]
-        verdict = "caught by " + ", ".join(caught) if caught else "MISSED (see note)"
-        rows.append(f"| `{x['name']}` | {own} | {(x.get('summary') or '')[:140].replace('|','/')} | {(x.get('needs') or '')[:110].replace('|','/')} | {', '.join(ran)} | {verdict} |")
+        rj = d / "result.json"
+        if rj.exists():
+            # latest run of the registered quick checks against this change (lib/runseeded.py, scratch copies)
+            res = json.load(open(rj))["checks"]
+            ran = list(res)
+            caught = [k for k, v in res.items() if v["rc"] == 1]
+            sigs = "; ".join(f"{k}: {', '.join(v['sigs'][:3])}" for k, v in res.items() if v["rc"] == 1)
+            broken = [k for k, v in res.items() if v["rc"] not in (0, 1)]
+        else:
+            r0 = x.get("checks_run_quick", "")
+            caught = [r.split(":")[0] for r in re.findall(r"(C\d+:rc=\d)", r0) if r.endswith("rc=1")]
+            ran = [r.split(":")[0] for r in re.findall(r"(C\d+:rc=\d)", r0)]
+            sigs, broken = "", []
+        verdict = ("caught by " + ", ".join(caught) + (f" ({sigs})" if sigs else "")) if caught else ("TOOL ERROR " + ",".join(broken) if broken else "MISSED")
+        rows.append(f"| `{x['name']}` | {own} | {(x.get('summary') or '')[:150].replace('|','/')} | {(x.get('needs') or '')[:120].replace('|','/')} | {', '.join(ran)} | {verdict.replace('|','/')} |")
     table = "| seeded change | property | what | needs | checks run (quick) | result |\n|---|---|---|---|---|---|\n" + "\n".join(rows)
     p = ROOT / "DESIGN.md"
     s = p.read_text()
